@@ -1355,10 +1355,41 @@ func c06Desc(c c06Case) func() []byte {
 	return func() []byte { return []byte(c06Key(c)) }
 }
 
+// c06RefWithOr is the pinned witness of a recorded finding: a value that is a type shortcut and carries an `or` rule
+// is accepted by Check() (the rule replaces the reference), but such a schema has no example value at all and
+// Example() answers "Loader error". Anything else about this input family is reported as usual.
+func c06RefWithOr(r *mon.Run) {
+	for _, root := range []string{`@t // {or: ["string", "integer"]}`, "{\n  \"k\": @t // {or: [\"string\", \"integer\"]}\n}"} {
+		r.Eval(1)
+		var cerr, eerr error
+		var ex []byte
+		if p := mon.Guard(func() {
+			s := jschema.New("root", root)
+			if err := s.AddType("@t", jschema.New("@t", `1`)); err != nil {
+				cerr = err
+				return
+			}
+			if cerr = s.Check(); cerr == nil {
+				ex, eerr = s.Example()
+			}
+		}); p != nil {
+			r.Violate("panic", "reference value with an or rule/"+p.Site, "panic: "+p.Value, map[string]any{"root": root})
+			continue
+		}
+		if cerr == nil && (eerr != nil || !stdjson.Valid(ex)) {
+			r.Violate("example-error", "a reference value with an or rule", fmt.Sprintf("Check() accepts %q (with @t registered) but Example() answers %q, %v", root, ex, eerr), map[string]any{"root": root})
+			return
+		}
+	}
+}
+
 func c06Run(r *mon.Run) {
 	st := newC06State()
 	defer st.flush(r)
 	sampled := 0
+	if r.Shard == 0 {
+		c06RefWithOr(r)
+	}
 	// (1) enumerated families; the global index runs over all of them
 	var base uint64
 	for _, f := range c06Families() {
